@@ -4,7 +4,7 @@ import Fundraising.Proofs.WFBasic
   the allow-list stays strictly sorted by bidder, every entry stays valid with a positive
   cap, and no bidder is ever removed from the list (so every recorded bid stays listed).
 -/
-namespace Fundraising
+namespace Fundraising.WFInv
 
 /-! ### `setAllowed` on a sorted list -/
 
@@ -194,10 +194,10 @@ theorem addAllowedBidders_wf {c c' : Ctx} {aid : Nat} {abs : List AllowedArg}
   obtain ⟨_, _, v, hv, c1, hh, l, hl, rfl⟩ := h
   rw [view_ok_iff] at hv
   obtain ⟨f1, _, n1⟩ := hook_frame hh
-  have hw1 : WF c1.s := hw.frame f1
+  have hw1 : WF c1.s := WF.frame f1 hw
   have V := hw.views aid v hv
   obtain ⟨hs, hc, hk⟩ := addLoop_inv hl V.allowedSorted V.caps
-  exact ⟨WF.ctx_setView hw1 aid _ (V.setAllowedList hs hc hk), fun hn => n1 hn⟩
+  exact ⟨WF.ctx_setView hw1 aid _ (ViewWF.setAllowedList V hs hc hk), fun hn => n1 hn⟩
 
 theorem updateAllowedBidder_wf {c c' : Ctx} {aid : Nat} {bidder : Acc} {cap : Int}
     (h : updateAllowedBidder c aid bidder cap = .ok c') (hw : WF c.s) :
@@ -208,12 +208,12 @@ theorem updateAllowedBidder_wf {c c' : Ctx} {aid : Nat} {bidder : Acc} {cap : In
   rw [view_ok_iff] at hv
   rw [check_ok_iff] at hc1 hc2
   obtain ⟨f1, _, n1⟩ := hook_frame hh
-  have hw1 : WF c1.s := hw.frame f1
+  have hw1 : WF c1.s := WF.frame f1 hw
   have V := hw.views aid v hv
   have hcap : 0 < cap := by simpa using hc2
   obtain ⟨w, hwm, hwb⟩ := lookupAllowed_isSome_iff.mp hc1
   have hva : validAcc bidder = true := hwb ▸ (V.caps w hwm).1
-  refine ⟨WF.ctx_setView hw1 aid _ (V.setAllowedList (setAllowed_sorted V.allowedSorted)
+  refine ⟨WF.ctx_setView hw1 aid _ (ViewWF.setAllowedList V (setAllowed_sorted V.allowedSorted)
     (setAllowed_caps V.caps ⟨hva, hcap⟩) (fun u hu => setAllowed_lookup hu)), fun hn => n1 hn⟩
 
-end Fundraising
+end Fundraising.WFInv
